@@ -224,6 +224,11 @@ def models():
     m("mixed rows, maximised", V, R_, [2.0, 1.0, -1.0, 0.25], "Max", -1.5)
     m("satisfy", V, R_[:3], [0.0, 0.0, 0.0, 0.0], "Satisfy")
     m("one row", [("x", ("NonNegativeReal", 0.0, INF))], [("only", [1.0], "GreaterOrEqual", 2.0)], [1.0], "Min")
+    # rows far from unit scale: a shadow price is per unit of the row's own right-hand side, whatever the solver is given
+    W = [("x", ("NonNegativeReal", 0.0, INF)), ("y", ("NonNegativeReal", 0.0, INF))]
+    RW = [("big", [5000.0, 10000.0], "LessOrEqual", 20000.0), ("mix", [3.0, 1.0], "LessOrEqual", 6.0), ("demand", [2500.0, 2500.0], "GreaterOrEqual", 25000.0), ("tiny", [0.0005, -0.00025], "Equal", 0.001), ("", [1e6, 0.0], "LessOrEqual", 1e9)]
+    m("large and small rows, maximised", W, RW, [3.0, 2.0], "Max")
+    m("large and small rows, minimised", W, RW, [2.0, 3.0], "Min", 1.0)
     return out
 
 
@@ -262,6 +267,7 @@ def check(F, R, tier="quick", props=("C20", "C04", "C05")):
             continue
         sol = r.args[0]
         n = len(md["vars"])
+        scale = {}
         if "C04" in props or "C20" in props:
             # ---- the problem handed over
             ok_n = len(mock.cols) == n
@@ -292,6 +298,16 @@ def check(F, R, tier="quick", props=("C20", "C04", "C05")):
                     want = {i: x for i, x in enumerate(coeffs) if x != 0.0}
                     lt = {i: x for i, x in l.terms.items() if x != 0.0}
                     ok = op == want_op and lt == want and not rr.terms and (rr.const - l.const) == rhs
+                    if not ok and not rr.terms and set(lt) == set(want) and want:
+                        # the same row at another scale (k times the row, the relation turned round for k < 0) has the same
+                        # solutions; its dual is per unit of the scaled right-hand side, so the reported price must be k times it
+                        i0 = sorted(want)[0]
+                        k_ = lt[i0] / want[i0]
+                        close = lambda a_, b_: abs(a_ - b_) <= 1e-12 * max(abs(a_), abs(b_), 1e-300)
+                        flip = {"leq": "geq", "geq": "leq", "eq": "eq"}
+                        if k_ != 0.0 and all(close(lt[i_], k_ * want[i_]) for i_ in want) and close(rr.const - l.const, k_ * rhs) and op == (want_op if k_ > 0 else flip[want_op]):
+                            scale[j] = k_
+                            ok = True
                     R.ob("GOODLP-BRIDGE-EQUIV", "%s:row:%d" % (key0, j), ok, where, "row %d (%s %s %r) is handed over as %s + %r %s %s + %r (the row's expression on the left: the sign of its dual depends on it)" % (j, want, cmp_, rhs, lt, l.const, op, rr.terms, rr.const))
         if "C20" in props:
             sp = sol.fields.get("shadow_prices") if isinstance(sol, Var) else None
@@ -308,10 +324,11 @@ def check(F, R, tier="quick", props=("C20", "C04", "C05")):
                 R.undecided("GOODLP-BRIDGE-EQUIV", key0 + ":duals", where, "shadow prices not readable: %r" % (sp,))
                 got = None
             if got is not None:
-                named = [(name, duals[j]) for j, (name, _, _, _) in enumerate(md["rows"]) if name]
-                for name, d in named:
-                    R.ob("GOODLP-BRIDGE-EQUIV", "%s:dual:%s" % (key0, name), name in got and got[name] == d, where, "the solver's dual of row %s is %r; the reported shadow price is %r" % (name, d, got.get(name, "<absent>")))
-                extra = sorted(set(got) - {nm for nm, _ in named})
+                named = [(name, duals[j], scale.get(j, 1.0)) for j, (name, _, _, _) in enumerate(md["rows"]) if name]
+                for name, d, k_ in named:
+                    same = name in got and (got[name] == d * k_ or (k_ != 1.0 and isinstance(got[name], float) and abs(got[name] - d * k_) <= 1e-12 * abs(d * k_)))
+                    R.ob("GOODLP-BRIDGE-EQUIV", "%s:dual:%s" % (key0, name), same, where, "the solver's dual of row %s is %r%s; the reported shadow price is %r" % (name, d, "" if k_ == 1.0 else " for the row handed over at %r times its scale (so %r per unit of the model's right-hand side)" % (k_, d * k_), got.get(name, "<absent>")))
+                extra = sorted(set(got) - {nm for nm, _, _ in named})
                 R.ob("GOODLP-BRIDGE-EQUIV", key0 + ":dual-names", not extra, where, "shadow prices reported under names that are not row names: %s" % extra)
         if "C04" in props:
             asg = sol.fields.get("assignment") if isinstance(sol, Var) else None
